@@ -10,6 +10,8 @@ CLAIMED = {
              note="degree<=4, length<=4 quick (5,5 thorough); absent namespaces and repeated identical terms outside the claim"),
  'C05': dict(design='C05', text="CobaRandom executed from an arbitrary symbolic generator state: the LCG step is proved a bijection on all 2^30 states (bit-vectors), uniforms are exact dyadic reals, randint/randints/shuffle/choice/choicew/gauss contracts and instance/module/stdlib interleavings are z3 queries over all states or over an arbitrary grid-valued uniform stream; random(min,max) is decided bit-exactly in QF_FP by a z3||cvc5 portfolio.",
              note="stubs: int() in coba.random identity on proxies; libm by contract; arbitrary-stream stub justified by the bijection obligation; seed=None and |bounds|>2^20 outside", engine='symx + z3||cvc5 FP lemmas'),
+ 'C06': dict(design='C06', text="The real SequentialCB.evaluate (SafeLearner, Finalize, BatchSafe, OpeRewards IPS, Unbatch, reward classes) runs on environments with symbolic contexts, rewards, logged rewards/probabilities and extra fields against a recording learner double whose picks are solver-enumerated and whose probabilities are symbolic; the full call trace and every yielded row are compared with the statement for all learn x eval x record-set x shape combinations, incl. rejection of environments lacking required fields, varying action sets and PMF-answering learners.",
+             note="N<=2 (3 thorough); dr/dm, batched environments and torch outside the claim"),
  'C13': dict(design='C13', text="Row pipelines built from the real HeadRows/EncodeRows/DropRows/LabelRows over list/tuple/LazyDense/dict/LazySparse bases run on symbolic integer cells with affine encoders; symbolic positions and row predicates fork in the solver; every access kind, in forward and reverse order, is compared with an eager list/dict model; plus the real ArffReader's lazy rows over a grid of missing-value placements.",
              note="width<=3 (4 thorough), 2 rows; EncodeCatRows, negative/out-of-range positions outside the claim"),
  'C17': dict(design='C17', text="Table.insert/index/where/groupby/copy run on symbolic integer cells; orderings are decided by z3 inside the real sorted/bisect calls; every operator, form, index column list and short operation history within the bounds is compared with a row-by-row list model. Bounded (rows<=3 quick, <=4 thorough), exhaustive within the bound.",
